@@ -5,6 +5,7 @@ import BbRe.Lemmas.InputRootFetch
 import BbRe.Lemmas.InputRootEager
 import BbRe.Lemmas.InputRootPaths
 import BbRe.Lemmas.InputRootCache
+import BbRe.Lemmas.InputRootExamples
 /-!
 # C17 — the input root is exactly the requested tree and cannot be altered
 
@@ -31,30 +32,7 @@ for `eager_tree_is_eager`), every exploration/mutation history and every choice
 of failing storage reads.
 -/
 namespace BbRe.Properties.C17
-open BbRe.InputRoot BbRe.Lemmas.InputRoot
-
-/-! ## concrete objects for the non-vacuity examples -/
-
-/-- digests "a0", "b0", "c0", "f1", "f2" of a store with 2-character hashes -/
-def dA : Dig := ⟨[97, 48], 7⟩
-def dB : Dig := ⟨[98, 48], 5⟩
-def dC : Dig := ⟨[99, 48], 3⟩
-def f1 : Dig := ⟨[102, 49], 4⟩
-def f2 : Dig := ⟨[102, 50], 0⟩
-def raw (d : Dig) : RawDigest := ⟨true, d.hash, d.size⟩
-
-/-- root `a0` = { sub/ → b0, shared/ → c0, bad/ → b0' (malformed), x (exec file), l → "t" },
-`b0` = { again/ → c0, y }, `c0` = {} (shared empty directory),
-`dd` = a directory that lists the name "y" twice (file and symlink). -/
-def dD : Dig := ⟨[100, 100], 9⟩
-def exCAS : CAS where
-  hashLen := 2
-  dirs := [
-    (dA, some ⟨[⟨[115], raw dB⟩, ⟨[104], raw dC⟩, ⟨[98], raw dD⟩], [⟨[120], raw f1, true⟩], [⟨[108], [116]⟩]⟩),
-    (dB, some ⟨[⟨[97], raw dC⟩], [⟨[121], raw f2, false⟩], []⟩),
-    (dC, some ⟨[], [], []⟩),
-    (dD, some ⟨[], [⟨[121], raw f1, false⟩], [⟨[121], [116]⟩]⟩)]
-  blobs := [(f1, [1, 2, 3, 4]), (f2, [])]
+open BbRe.InputRoot BbRe.Lemmas.InputRoot BbRe.Lemmas.InputRoot.Ex
 
 /-! ## `lazy_equals_eager` -/
 
@@ -64,8 +42,6 @@ symmetric.) -/
 theorem lazy_equals_eager_step (l e : State) (op : Op) (h : SEquiv l e) :
     (step l [] op).2 = (step e [] op).2 ∧ SEquiv (step l [] op).1 (step e [] op).1 :=
   step_equiv l e op h
-
-def noFaults (ops : List Op) : List (List Dig × Op) := ops.map fun o => ([], o)
 
 /-- **Every** fault-free history of explorations (lookup, readdir, open, read at any
 path, in any order, any number of times) interleaved with local modifications
@@ -110,28 +86,9 @@ theorem merged_root_expand (c : CAS) (d : Dig) (ch : Children) (fuel : Nat)
   · simp [merge, init, h, contents, actMerge, hasName, lookup]
   · simp [expand, h]
 
-/-- `exCAS` is a DAG. -/
-theorem exCAS_acyclic : Acyclic exCAS (fun d => if d = dA then 2 else if d = dB then 1 else 0) := by
-  intro d m hm e he d' hp
-  simp only [exCAS, assoc] at hm
-  split at hm
-  · rename_i h; subst h
-    simp only [Option.some.injEq] at hm; subst hm
-    simp only [List.mem_cons, List.not_mem_nil, or_false] at he
-    rcases he with rfl | rfl | rfl <;> simp [parseDigest, raw, exCAS, dB, dC, dD, isLowerHex] at hp <;>
-      subst hp <;> decide
-  · split at hm
-    · rename_i h1 h; subst h
-      simp only [Option.some.injEq] at hm; subst hm
-      simp only [List.mem_cons, List.not_mem_nil, or_false] at he
-      subst he
-      simp [parseDigest, raw, exCAS, dC, isLowerHex] at hp
-      subst hp; decide
-    · split at hm
-      · simp only [Option.some.injEq] at hm; subst hm; simp at he
-      · split at hm
-        · simp only [Option.some.injEq] at hm; subst hm; simp at he
-        · cases hm
+/-- `exCAS` is a DAG of depth 2; fuel 3 leaves only the malformed `bad/` lazy. -/
+example : Eager exCAS (expand exCAS 3 (.lazy dA)) :=
+  eager_tree_is_eager exCAS _ exCAS_acyclic dA 3 (by decide)
 
 /-- A history that looks below a shared subtree first, removes a CAS file, creates a
 local one in its place and lists directories gives the same answers lazily and
@@ -289,10 +246,6 @@ example :
     [.kind .dir, .status .eio, .status .eio, .status .eio, .mergeErr .invalidArgument] := by decide
 
 /-! ## `cas_files_immutable` -/
-
-/-- The refusals of a CAS backed file. -/
-def isRefusal (o : Out) : Prop :=
-  o = .status .eacces ∨ o = .status .ewrongtype ∨ o = .unreachable
 
 /-- Every attempt to write, truncate, allocate, open for writing or change the size
 of a CAS backed file is refused. -/
